@@ -364,6 +364,75 @@ def eval3(test, atom):
         return bool(test.value)
     return None
 
+def reach_with_flags(g, start, avoid=(), atom=None, follow_exc=False, facts=None):
+    """node ids reachable from `start` without entering `avoid`, path-sensitively for boolean-like locals: along each path the analysis
+    remembers, for every local name whose last assignment was None / True / False / an exception object bound by a handler, that value, and
+    at a test node follows only the outcomes consistent with eval3(test, atom + those facts).  `atom` decides further sub-expressions
+    (NotImplemented: not mine).  Exact for the flag idiom (`failed = None ... except E as e: failed = e ... if failed is not None`);
+    anything else about a name forgets it."""
+    avoid = set(avoid)
+    if start in avoid:
+        return set()
+    def effect(n, f):
+        f = dict(f)
+        a = n.ast
+        if n.kind == 'handler' and getattr(a, 'name', None):
+            f[a.name] = 'obj'
+        elif n.kind == 'stmt' and isinstance(a, (ast.Assign, ast.AnnAssign)) and getattr(a, 'value', None) is not None:
+            tg = a.targets if isinstance(a, ast.Assign) else [a.target]
+            for t in tg:
+                for x in ast.walk(t):
+                    if isinstance(x, ast.Name):
+                        f.pop(x.id, None)
+            if len(tg) == 1 and isinstance(tg[0], ast.Name):
+                v = a.value
+                if isinstance(v, ast.Constant) and (v.value is None or isinstance(v.value, bool)):
+                    f[tg[0].id] = 'none' if v.value is None else v.value
+                elif isinstance(v, ast.Name) and f.get(v.id) is not None and v.id in f:
+                    f[tg[0].id] = f[v.id]
+        elif n.kind == 'stmt' and isinstance(a, (ast.AugAssign, ast.Delete, ast.For, ast.AsyncFor, ast.With, ast.AsyncWith)):
+            for x in ast.walk(a):
+                if isinstance(x, ast.Name) and isinstance(x.ctx, (ast.Store, ast.Del)):
+                    f.pop(x.id, None)
+        return f
+    def decide(test, f):
+        def at(e):
+            if isinstance(e, ast.Name) and e.id in f:
+                return {'none': False, 'obj': True, True: True, False: False}[f[e.id]]
+            if isinstance(e, ast.Compare) and len(e.ops) == 1 and isinstance(e.left, ast.Name) and e.left.id in f and isinstance(e.comparators[0], ast.Constant) and e.comparators[0].value is None \
+                    and isinstance(e.ops[0], (ast.Is, ast.IsNot, ast.Eq, ast.NotEq)):
+                isnone = f[e.left.id] == 'none'
+                return isnone if isinstance(e.ops[0], (ast.Is, ast.Eq)) else not isnone
+            if atom is not None:
+                return atom(e)
+            return NotImplemented
+        return eval3(test, at)
+    seen = set()
+    out = set()
+    stack = [(start, tuple(sorted((facts or {}).items(), key=repr)))]
+    while stack:
+        u, fk = stack.pop()
+        if (u, fk) in seen:
+            continue
+        seen.add((u, fk))
+        out.add(u)
+        if len(seen) > 20000:
+            break
+        n = g.nodes[u]
+        f = dict(fk)
+        tv = decide(n.ast.test, f) if n.kind == 'test' and hasattr(n.ast, 'test') else None
+        f2 = effect(n, f)
+        k2 = tuple(sorted(f2.items(), key=repr))
+        for v, l in g.succ[u]:
+            if l == 'exc' and not follow_exc:
+                continue
+            if tv is True and l == 'false': continue
+            if tv is False and l == 'true': continue
+            if v in avoid:
+                continue
+            stack.append((v, k2 if l != 'exc' else fk))
+    return out
+
 def implied_edges(g, atom_false_world):
     """edges (test node id, label) that can only be taken when the `world` assumed by atom_false_world does NOT hold:
     the test evaluates to a constant b in that world, so the edge `not b` implies the world's negation"""
